@@ -10,6 +10,7 @@ Finiteness = no reachable error guard (C08) and no non-finite constant in a resu
 from __future__ import annotations
 
 import datetime
+import inspect
 import json
 
 import z3
@@ -324,6 +325,63 @@ def report_cap(ck, dag, date, node, bound, enc, m):
         common.spurious("C16", what)
 
 
+# caps that a parameter NAMED as a maximum encodes for the rule that reads it (curated from the parameter files:
+# the rule's result must not exceed the parameter; checked for every value the parameter takes over time)
+NAMED_CAPS = [
+    ("_arbeitsl_geld_2_alleinerz_mehrbedarf_m", "arbeitsl_geld_2_params", ("mehrbedarf_anteil", "max")),
+    ("_arbeitsl_geld_2_warmmiete_pro_qm_m", "arbeitsl_geld_2_params", ("max_miete_pro_qm", "max")),
+    ("eink_st_abz_betreuungskost_y", "eink_st_abzuege_params", ("kinderbetreuungskosten_abz_maximum",)),
+    ("eink_st_altersfreib_y_bis_2004", "eink_st_abzuege_params", ("altersentlastungsbetrag_max",)),
+    ("vorsorge_krankenv_option_a", "eink_st_abzuege_params", ("vorsorgepauschale_kv_max", "steuerklasse_3")),
+]
+
+
+def named_caps(ck):
+    allf = gt.all_internal_functions()
+    for fname, parg, path in NAMED_CAPS:
+        f = allf.get(fname)
+        if f is None or parg not in inspect.signature(f).parameters:
+            ck.add_inconclusive(f"named cap {fname} <= {'.'.join(map(str, path))}: rule or parameter argument no longer exists")
+            continue
+        info = getattr(f, "__info__", {}) or {}
+        lo = max(info["start_date"], datetime.date(1985, 1, 1)) if info.get("start_date") else datetime.date(1985, 1, 1)
+        for lab, kw in gt.param_variants(f, lo, info.get("end_date")):
+            P = {a[: -len("_params")]: v for a, v in kw.items()}
+            try:
+                cap = P[parg[: -len("_params")]]
+                for k in path:
+                    cap = cap[k]
+                cap = float(cap)
+            except (KeyError, TypeError, ValueError):
+                continue          # the cap parameter is not in force with these parameters
+            try:
+                kws, syms = gt.rule_args(f, P)
+                v, ctx = R.run(f, kwargs=kws)
+                if v is None:
+                    continue
+                t = R.term_of(v, float)
+            except (R.Unsupported, KeyError, TypeError, ValueError) as e:
+                ck.add_inconclusive(f"named cap {fname}@{lab}: {type(e).__name__}: {e}"[:160])
+                continue
+            ck.functions |= ctx.funcs
+            errs = [g for g, k_, w in ctx.errors]
+            pre = validity.inputs(syms) + list(ctx.assumptions) + ([z3.Not(z3.Or(errs))] if errs else [])
+            r, m = ck.oblige(f"named cap {fname} <= {'.'.join(map(str, path))} @{lab}", pre + [t > R.const_real(cap) + EPS], 60,
+                             sample={"rule": fname, "cap_parameter": ".".join(map(str, path)), "value": cap, "parameters_in_force_at": lab})
+            ck.nontrivial.add(("named-cap", fname, cap))
+            if r == "sat":
+                row = {a: R.model_value(m, s_) for a, s_ in syms.items()}
+                try:
+                    out = float(f(**row, **kw))
+                except Exception as e:   # noqa: BLE001
+                    out = None
+                what = f"{fname} = {out} exceeds the cap {'.'.join(map(str, path))} = {cap} (parameters of {lab}) for {row}"
+                if out is not None and out > cap + 5e-7:
+                    ck.violation(["named-cap", fname], what, {"kind": "named-cap", "fname": fname, "variant": lab, "row": row, "cap": cap})
+                else:
+                    common.spurious("C16", what)
+
+
 def _one_date(ck, date):
     check_date(ck, date, {}, set())
 
@@ -332,6 +390,7 @@ def run(tier):
     ck = common.Check("C16", tier)
     dates, st = date_classes(tier)
     common.run_parallel(ck, _one_date, dates)
+    named_caps(ck)
     memo = {}
     ck.bounds = {"date_classes": len(dates), "sign_queries": "memoised per date (dates run in parallel worker processes)", "persons": "rule-local facts: any population; cone fallback: single-person household",
                  "eps": "1e-6", "window": "quick: 4 dates >= 2015; thorough: one representative per distinct environment >= 2015"}
@@ -348,6 +407,12 @@ def run(tier):
 def replay(path):
     d = json.load(open(path))["replay"]
     from gsv.checks import c08
+    if d["kind"] == "named-cap":
+        f = gt.all_internal_functions()[d["fname"]]
+        kw = dict(gt.param_variants(f))[d["variant"]] if d.get("variant") else {}
+        out = float(f(**d["row"], **kw))
+        print(out, "cap", d["cap"])
+        return 1 if out > d["cap"] + 5e-7 else 0
     if d["kind"] == "household":
         import pandas as pd
         import warnings
